@@ -63,13 +63,14 @@ Bools ==
 
 \* chains of three conversions
 T8i(h) == Types8[(h % 8) + 1]
-ChainCount == IF Tier = "thorough" THEN 512 ELSE 96
+\* all 8 x 8 x 8 chains in both tiers (quick: boundary / pattern / random inputs; thorough: additionally every low byte)
+ChainCount == 512
 Chains ==
     [i \in 1..ChainCount |->
-        LET t1 == IF Tier = "thorough" THEN Types8[((i - 1) % 8) + 1] ELSE T8i(H3(Seed, i, 1))
-            t2 == IF Tier = "thorough" THEN Types8[(((i - 1) \div 8) % 8) + 1] ELSE T8i(H3(Seed, i, 2))
-            t3 == IF Tier = "thorough" THEN Types8[(((i - 1) \div 64) % 8) + 1] ELSE T8i(H3(Seed, i, 3))
-        IN  P("ch-" \o ToString(i), << Decl(S64, "a", Rss) >> \o Obs(CastE(t3, CastE(t2, CastE(t1, A)))), <<"chain">>, "low8")]
+        LET t1 == Types8[((i - 1) % 8) + 1]
+            t2 == Types8[(((i - 1) \div 8) % 8) + 1]
+            t3 == Types8[(((i - 1) \div 64) % 8) + 1]
+        IN  P("ch-" \o ToString(i), << Decl(S64, "a", Rss) >> \o Obs(CastE(t3, CastE(t2, CastE(t1, A)))), <<"chain">>, IF Tier = "thorough" THEN "low8" ELSE "std")]
 
 Programs == Pairs \o Bools \o Chains
 Out == [programs |-> Programs, subs |-> Subs]
